@@ -199,7 +199,8 @@ class MatchTwoQueries:
     for i in range(n):
       j = A[i]
       v_tilde[i, A[i]] = elicitor.elicit(i, j)
-      current_rank = profile[i, j]
+      # The rank indexes the ranking below, so it must be an integer even if the profile stores ranks as floats.
+      current_rank = int(profile[i, j])
       current_rank -= 1
       while current_rank > 1:
         # Set the utility of all items up to but not including the favorite item.
